@@ -182,6 +182,7 @@ def gen_rich(rng, P, serial=0):
   doc = blank_doc(P)
   doc["lang"] = rng.choice(["en", "fr", "", "en-US"])
   doc["space"] = rng.choice(["", "", "default", "preserve"])
+  doc["spell"] = rng.choice([0, 0, 1, 2, 3, 4, 5])        # how named colours are spelled in the XML (see X.render)
   total = [0]
   tagno = [0]
 
@@ -381,7 +382,9 @@ def gen_rich(rng, P, serial=0):
 BAD_TIME = ["", "abc", "1", "1.s", ".5s", "1x", "5fx", "-1s", "+1s", "1 s", "1S", "00:00:01:99", "00:00:1", "0:00:01",
             "00:00:01.", "00:00:01:", "1.5.5s", "1,5s", "1e3s", "1h30m", "10ss", "s", "٣s", "12frames", "3tt", "1.0.0f"]
 BAD_COLOR = ["", "#ff", "#gg0000", "rgb(1,2)", "reddish", "#ff0000zz", "#ff00001", "rgba(1,2,3)", "rgb(255,0,0,0)",
-             "rgb(300,0,0)", "ff0000"]
+             "rgb(300,0,0)", "ff0000",
+             # the function names of <color> are lower case; these differ from a legal spelling in letter case only
+             "RGB(255,0,0)", "Rgb(0,0,255)", "RGBA(255,255,0,255)", "rgbA(0,128,0,255)", "RGB(0,0,0)", "Rgba(255,255,255,255)"]
 BAD_VALUES = {
   "color": BAD_COLOR, "backgroundColor": BAD_COLOR,
   "fontStyle": ["", "Italic", "slanted"], "fontWeight": ["", "600", "bolder"], "visibility": ["", "invisible", "Hidden"],
